@@ -167,6 +167,26 @@ fn decode(src: &mut Source) -> Case {
     if src.chance(60) {
         cfg.quantiles = Some(vec![0.0, 0.5, 1.0][..1 + src.below(3)].to_vec());
     }
+    // label names in a prefix relation: an own label named like the beginning of a global label's name, or like
+    // the beginning of an earlier own label's name (drawn last, so that earlier replay files decode as before)
+    let mut keys = keys;
+    let sel = src.below(8);
+    if sel >= 6 {
+        let k = src.below(keys.len());
+        let longer: Option<String> = if sel == 6 { cfg.globals.get(src.below(cfg.globals.len().max(1))).map(|g| g.0.clone()) } else { keys[k].labels.first().map(|l| l.0.clone()) };
+        if let Some(longer) = longer {
+            let nchars = longer.chars().count();
+            if nchars >= 2 {
+                let take = 1 + src.below(nchars - 1);
+                let short: String = longer.chars().take(take).collect();
+                let san = ref_label_name(&short);
+                let clash = keys[k].labels.iter().any(|(n, _)| ref_label_name(n) == san) || cfg.globals.iter().any(|(n, _)| ref_label_name(n) == san) || san == "le" || san == "quantile" || san == "sid";
+                if !clash {
+                    keys[k].labels.push((short, src.small_string(&LVAL_PARTS, 3)));
+                }
+            }
+        }
+    }
     Case { cfg, keys, steps }
 }
 
@@ -343,6 +363,9 @@ fn run_history(case: &Case, mock: &quanta::Mock, ctx: &mut Ctx) -> Result<(), Fa
     let mut drains_seen: Vec<u32> = vec![0; case.keys.len()];
     if case.keys.iter().any(|k| k.labels.iter().any(|(n, _)| case.cfg.globals.iter().any(|(g, _)| g == n))) {
         ctx.nontrivial("global-label-overridden");
+    }
+    if case.keys.iter().any(|k| k.labels.iter().any(|(n, _)| case.cfg.globals.iter().map(|g| &g.0).chain(k.labels.iter().map(|l| &l.0)).any(|o| o != n && o.starts_with(n.as_str())))) {
+        ctx.nontrivial("label-name-is-the-beginning-of-another-label-name");
     }
     let mut last_render: Option<String> = None;
     for step in &case.steps {
